@@ -80,6 +80,16 @@ CLAIMED = {
              "body length read from the wire.",
         design_ref="DESIGN.md 4 C19, 9",
         technique="TLA+ model checking of byte accounting / record sites + TLC trace validation of real access records vs. the wire"),
+    "C08": dict(
+        text="specs/HeaderMap.tla transcribes parse_headers (scheme headers, underscore policy), the PROXY-line checks, "
+             "wsgi.create and the carrying of PROXY info over keep-alive as Model(case) and states the trust rules as "
+             "Envelope(case, obs); TLC checks Envelope(case, Model(case)) for the complete products (peer x forwarded_allow_ips "
+             "x forwarder_headers x header_map x secure_scheme_headers x header lists; proxy_protocol x proxy_allow_ips x PROXY "
+             "line x request index x worker class). The same cases are emitted by TLC, turned into real Config objects and byte "
+             "requests, served by the real handle() (two requests on one connection for index 2), and the environ the application "
+             "saw is judged by TLC (specs/HeaderMapTrace.tla): envelope, then equality with the model (drift).",
+        design_ref="DESIGN.md 4 C08, 9",
+        technique="TLA+ decision-table model + envelope checked by TLC on the full product; TLC-emitted cases replayed into the real handle(); TLC judges observed environs"),
 }
 
 NOT_YET = {
